@@ -108,6 +108,11 @@ func genCert(r *mrand.Rand) ([]byte, certCase, error) {
 		}
 		kinds = append(kinds, "basicConstraints")
 	}
+	if r.Intn(6) == 0 {
+		t.BasicConstraintsValid, t.IsCA = true, true
+		t.PermittedDNSDomains = []string{"example.com", gen.Ident(r, 4) + ".test"}
+		kinds = append(kinds, "nameConstraints")
+	}
 	if r.Intn(2) == 0 {
 		t.KeyUsage = x509.KeyUsage(1 + r.Intn(511))
 		kinds = append(kinds, "keyUsage")
